@@ -145,6 +145,44 @@ Theorem C08_cache_refuted :
 Proof. exact cache_refuted. Qed.
 Print Assumptions C08_cache_refuted.
 
+(* what IS true of the cache: for every world, from a state whose cache entry equals full resolution, the cached
+   resolution keeps it so and -- unless it runs out of recursion budget -- answers what full (cache-free) resolution
+   answers once its budget suffices *)
+Theorem C08_cache_sound : forall d e f, sim d e (chase true f d e).
+Proof. exact chase_sim. Qed.
+Print Assumptions C08_cache_sound.
+
+(* full resolution is a function of the world alone, and a larger budget only turns "out of budget" into an answer *)
+Theorem C08_resolution_state_independent : forall d e F, obl false (U d e F) (U d e F).
+Proof. exact resolve_state_independent. Qed.
+Print Assumptions C08_resolution_state_independent.
+Theorem C08_resolution_budget_monotone : forall d e F, obl true (U d e F) (U d e (S F)).
+Proof. exact resolve_budget_monotone. Qed.
+Print Assumptions C08_resolution_budget_monotone.
+
+(* transparency at full strength under that hypothesis: the node read is THE target *)
+Theorem C08_transparent_target : forall fuel d e s i what s' v,
+  cache_sane d s -> coherent d e s -> adf_get true fuel d e s i what = (s', AVal v) -> what <> 0 -> what <> 4 -> what <> 5 ->
+  exists l, resolves_to d e i (Ok l) /\ nonlink d l /\ v = node_attr d l what /\ cache_sane d s' /\ coherent d e s'.
+Proof. exact cached_read_is_full_resolution. Qed.
+Print Assumptions C08_transparent_target.
+
+(* every mutation except the rename keeps the cache coherent (accepted or refused, cleared or not) ... *)
+Theorem C08_mutations_keep_cache_coherent : forall s f o s' r, (forall p u nm, o <> ORename p u nm) ->
+  acoherent s -> adf_mutate s f o = (s', r) -> acoherent s'.
+Proof. exact mutate_keeps_coherent. Qed.
+Print Assumptions C08_mutations_keep_cache_coherent.
+
+(* ... hence along EVERY history of reads, look-ups and mutations without a rename (search environment fixed), whatever
+   is read through any link is an attribute of the node full resolution reaches: rename is the only hole *)
+Theorem C08_cache_coherent_without_rename : forall fuel s0 l i what v,
+  a_cache s0 = None -> Forall ev_ok l ->
+  let s := run_evs fuel s0 l in
+  file_open s (fst i) = true -> snd (adf_read fuel s i what) = AVal v -> what <> 0 -> what <> 4 -> what <> 5 ->
+  exists t, resolves_to (a_disk s) (a_env s) i (Ok t) /\ nonlink (a_disk s) t /\ v = node_attr (a_disk s) t what.
+Proof. exact cache_coherent_without_rename. Qed.
+Print Assumptions C08_cache_coherent_without_rename.
+
 (* ---- file search --------------------------------------------------------------------------------------------------- *)
 Theorem C08_search_order : forall d e parent fn ft maxlen p, find_file d e parent fn ft maxlen = FOk p ->
   exists pre post, candidates e parent fn ft maxlen = pre ++ CPath p :: post /\ exists_as d p ft = true /\
@@ -233,5 +271,11 @@ Example C08_cache_cleared_by_delete :
   let s7 := s_of (adf_mutate s6 fA (ODelete 1 2)) in
   a_cache s6 = Some ((fA, 3), (fA, 2)) /\ a_cache s7 = None /\ snd (adf_read 8 s7 (fA, 3) 1) = AErr ELinkTarget.
 Proof. exact cache_cleared_by_delete. Qed.
+Example C08_history_without_rename :
+  let h := [EMut fA (OCreate 0 1 bA); EMut fA (OCreate 1 2 bB); EMut fA (OLabel 2 [76; 98]);
+            EMut fA (OLink 0 3 [76] [] [47; 65; 47; 66]); ERead (fA, 3) 1; EMut fA (OCreate 1 4 bC); EMut fA (OLabel 2 [120])] in
+  Forall ev_ok h /\
+  snd (adf_read 8 (run_evs 8 (s_of (adf_open ast0 fA true)) h) (fA, 3) 1) = AVal (RBytes [120]).
+Proof. exact history_without_rename. Qed.
 Example C08_cache_sane_initially : forall d, cache_sane d rs0.
 Proof. exact cache_sane_initially. Qed.
